@@ -214,11 +214,20 @@ func (u *Unit) cover(st *State, label string, pos token.Pos) {
 		root = root.parent
 	}
 	name := fmt.Sprintf("%s#cover:%s", root.name, label)
+	for _, t := range st.pc {
+		if t == "false" {
+			return // a path already cut syntactically says nothing about reachability; do not let it use up a sample
+		}
+	}
 	if root.kindSeq == nil {
 		root.kindSeq = map[string]int{}
 	}
 	root.kindSeq["cover#"+name]++
-	if root.kindSeq["cover#"+name] > 3 {
+	limit := 3
+	if strings.HasPrefix(label, "premise:") {
+		limit = 8 // the premise of a postcondition is typically satisfiable on few of the return paths
+	}
+	if root.kindSeq["cover#"+name] > limit {
 		return // aggregated "any instance reachable": a few instances suffice
 	}
 	o := &Obligation{Name: name, Kind: "cover", Func: root.name, Goal: "false", PC: st.pc[:len(st.pc):len(st.pc)], Where: u.where(pos), Trace: st.trace, Expect: "sat"}
